@@ -453,7 +453,7 @@ class Renderer:
             self.gap("stmt" if s.block else "mopt", want_space=False)
             self.tok("}", begin=[("mark", (s, "rbrace"))], end=[("marke", (s, "rbrace"))])
         elif k in ("const", "var"):
-            self.tok("." + k, "dir")
+            self.tok(".var" if getattr(s, "as_var", False) else "." + k, "dir")
             self.gap("sp")
             self.defname(s.d)
             self.gap("opt", want_space=True)
